@@ -12,7 +12,7 @@ CHECKS = {
     "C02": ("same state space as C01 plus every sequence of codec calls up to length 3/4 in one process (failing calls included); oracle is a reference wire codec (bound to the 26 project vectors at the start of every run): serde.encode(v) == canonical bytes and serde.decode(canonical bytes) == v",
             "reference codec fcpmc/refcodec.py is the specification of the canonical format; pinned by the project's vectors and (C03) by the generated C++ codec",
             "explicit-state enumeration against a reference model validated on project vectors"),
-    "C04": ("every fixed-size struct shape (1..3 fields, thorough 4) x every field-id permutation x unroll flag laid out by the real PackedEncoder against a reference layout and the model-free tiling invariant; every generate() history up to length 3 (4) on one live encoder by fork-snapshot",
+    "C04": ("every fixed-size struct shape (1..3 fields, thorough 4) x every field-id permutation x unroll flag laid out by the real PackedEncoder against a reference layout and the model-free tiling invariant; every generate() history up to length 3 (4) on one live encoder by fork-snapshot; every sequence of <= 3 contexts derived from one kept base context",
             "reference layout fcpmc/reflayout.py; an unrolled array element carries the options declared for its array field; arrays next to fields named like their elements",
             "explicit-state enumeration + fork-snapshot history exploration"),
     "C07": ("every schema description of a small scope (all grammar productions, nested types to depth 2/3, every extension value form, lexer-colliding identifiers in every slot, ids and sizes at the byte boundaries inside the record's u32 slots, string literals ending in an escaped quote) x every formatting variant (incl. CRLF/CR text, no parentheses, no pipes) parsed by the real front end; oracle: independently built expected tree and cross-variant equality",
@@ -21,7 +21,7 @@ CHECKS = {
             "duplicate type names are C09's subject", "explicit-state enumeration against a resolution specification"),
     "C09": ("all schema trees of per-rule sub-scopes built through the constructors x 3 check-set configurations x every permutation of the declaration lists (incl. two CAN bindings x ids x buses none/b1/b2/default; binding/type/enum/device trees also built without source positions, i.e. with equal nodes); oracle: three-valued reference predicate + permutation invariance",
             "statement-silent cases (non-CAN binding > 64 bits under the C check set) accept either verdict", "small-scope exhaustive enumeration against a reference predicate"),
-    "C10": ("for each generator every check evaluation of the verification run is made to fail in turn (fault enumeration through Verifier.register) x pre-existing directory states (incl. a missing nested directory, stale files of exactly the new size); plug-ins returning one path twice; an uncategorized check; a stub plug-in writing into sub-directories; CLI exit status; rule-violating schemas; accepted runs vs the plug-in's returned files; generate() histories by fork-snapshot; CLI",
+    "C10": ("for each generator every check evaluation of the verification run is made to fail in turn (fault enumeration through Verifier.register) x pre-existing directory states (incl. a missing nested directory, stale files of exactly the new size); every sequence of generations and wipes into ONE directory at one path by one manager in one process; plug-ins returning one path twice; an uncategorized check; a stub plug-in writing into sub-directories; CLI exit status; rule-violating schemas; accepted runs vs the plug-in's returned files; generate() histories by fork-snapshot; CLI",
             "an exception counts as an error report; deletions by a plug-in's own generate() on accepted schemas are not judged", "exhaustive fault-point enumeration + history exploration with directory snapshots"),
     "C11": ("every prefix of every corpus text, every single-token mutation at every token position, every token string up to length 4/5 over two 12-token alphabets, every literal slot x value form, nesting depths 100..1000 (3000) in every recursive production, every import graph over 2 (3) files, layered graphs with 2^n paths to a valid or broken leaf, main files that are not UTF-8, texts given as a string under seven states of the working directory (removed, symlink loop / dangling link / directory / file called main.fcp), and the same inside an imported module; every parse history through one Logger re-rendering earlier errors; oracle: no exception, Ok or renderable Err, cited lines exist",
             "termination decided within a 10 s alarm per input", "exhaustive enumeration of input families on the real parser"),
@@ -43,11 +43,11 @@ CHECKS.update({
             "gcc 12; NaN/infinities excluded (no portable literal), -0.0 compared bit for bit; a naming family (device/message/binding/enum/signal names of every casing, two devices with interleaved declarations, leading underscores, frame ids at and beyond 11 bits)", "explicit-state enumeration of generator inputs, compiled and executed against a reference model"),
     "C13": ("C03's struct space in the same harness: the reflection binary produced by the Python tool is loaded with LoadBinarySchema and the dynamic codec's bytes/values are compared with the static codec's for every boundary value; LoadBinarySchema histories on one object (older revision then newer); enum numbers without enumerator",
             "enumerator values stay below 2^31 (the reflection record's slot, open C12 finding); a run-time schema that does not compile is a violation, not a skip", "explicit-state enumeration, differential oracle (static vs dynamic codec)"),
-    "C14": ("CAN bindings of every size 57..72, 80, 96, 128, 200 bits with the excess in a scalar, nested struct, array, array of structs or enum at first/middle/last position, every placement of a str/dynamic array/optional, odd big-endian placements behind multiplexing relations, multiplexed signals behind a leading selector at the end of messages of 64..72 bits, and oversize structs bound to a protocol spelled CAN/Can/cAN; DBC generate and the can_c generation command must fail and emit nothing for > 64 bits / variable size; geometry of everything emitted",
+    "C14": ("CAN bindings of every size 57..72, 80, 96, 128, 200 bits with the excess in a scalar, nested struct, array, array of structs or enum at first/middle/last position, every placement of a str/dynamic array/optional, odd big-endian placements behind multiplexing relations, multiplexed signals behind a leading selector at the end of messages of 64..72 bits, oversize structs bound to a protocol spelled CAN/Can/cAN, and enums at the edges of their width (single-valued, 2^49, 2^53, 2^63); DBC generate and the can_c generation command must fail and emit nothing for > 64 bits / variable size; geometry of everything emitted",
             "an exception counts as failing with an error", "explicit-state enumeration around the size limit + geometric invariant on emitted artefacts"),
-    "C15": ("every struct with 2-3 fields (4 in thorough) over representative kinds x EVERY permutation of the declaration order (ids fixed) compared with its id-sorted twin in all back ends: Python codec, packed layout, DBC, generated C frames (gcc), C++ static and dynamic bytes",
+    "C15": ("every struct with 2-3 fields (4 in thorough; directed 4- and 5-field bases, sparse and dense ids 0..n-1) over representative kinds x EVERY permutation of the declaration order (ids fixed) compared with its id-sorted twin in all back ends: Python codec, packed layout, DBC, generated C frames (gcc), C++ static and dynamic bytes",
             "CAN back ends on the fixed-size subset <= 64 bits", "exhaustive permutation enumeration, differential oracle"),
-    "C18": ("schemas with 1..4 CAN bindings (payloads 1,7,8,9,33,64 bits, mixed and beyond 8 bytes (72 bits, strings), bus names beyond the 4-byte tag (under ASan), the generator's headers in another include order, ids {0,1,100,2047}, bus names of length 1..4, prefix-related buses, long names) through Can{CanStaticSchema} and Can{CanDynamicSchema}: encode == reference frame; decode of every frame and of every frame with the id or one bus character changed",
+    "C18": ("schemas with 1..4 CAN bindings (payloads 1,7,8,9,33,64 bits, mixed and beyond 8 bytes (72 bits, strings), bus names beyond the 4-byte tag (under ASan), the generator's headers in another include order, ids {0,1,100,2047}, bus names of length 1..4, prefix-related buses, long names, bindings of other protocols that carry id and bus, unknown-frame probes with identifier bits above 0x7FF) through Can{CanStaticSchema} and Can{CanDynamicSchema}: encode == reference frame; decode of every frame and of every frame with the id or one bus character changed",
             "bindings named after their struct", "explicit-state enumeration of schemas x frames against a reference frame, static/dynamic differential"),
     "C19": ("for every device (1..3 messages, 4 in thorough; periods from {absent,-1,0,1,2,3,5}, plus devices with periods 2^31, 2^32-1, 2^32, 2^32+10) EVERY call history of length 5 (7 for selected devices in thorough) over the delta alphabet {0,1,P-1,P,P+1,2P,wrap} on the generated C scheduler, one forked process per history; two devices linked into one program (declared grouped and interleaved) called with the same timestamps in every order pattern; oracle: reference automaton + independent trace invariant + frame contents",
             "gcc 12; 32-bit wrap exercised through deltas 2^32-3 and a start at 2^32-2", "exhaustive exploration of call histories of the real compiled code (fork per history) against a reference automaton"),
